@@ -45,6 +45,20 @@ type obs struct {
 	seq        int
 	sentAt     map[int]int // item -> tick at which the generator's send completed
 	redWriteAt int         // tick at which the reducer started its first Write
+	cancels    []cancelRec // every cancel call with the ticks of its invocation and return
+}
+
+type cancelRec struct {
+	what     string // outcome string this cancel stands for
+	inv, ret int
+}
+
+// doCancel calls cancel(err) and records when the call was made and when it returned.
+func (o *obs) doCancel(cancel func(error), err error, what string) {
+	inv := o.tick()
+	cancel(err)
+	ret := o.tick()
+	o.cancels = append(o.cancels, cancelRec{what, inv, ret})
 }
 
 func (o *obs) tick() int { vrt.Obs(); o.seq++; return o.seq }
@@ -56,7 +70,7 @@ func (s scen) countCancels() int {
 			n++
 		}
 	}
-	if s.red == "cancel" {
+	if s.red == "cancel" || s.red == "cancel2" {
 		n++
 	}
 	return n
@@ -112,11 +126,15 @@ func (s scen) run(r *vrt.Run) {
 			w.Write(i * 10)
 			w.Write(i*10 + 1)
 		case "cerrA":
-			cancel(errA)
+			o.doCancel(cancel, errA, "err:errA")
 		case "cerrB":
-			cancel(errB)
+			o.doCancel(cancel, errB, "err:errB")
+		case "cerrAB":
+			// two cancels one after the other from the same goroutine: the first wins
+			o.doCancel(cancel, errA, "err:errA")
+			o.doCancel(cancel, errB, "err:errB")
 		case "cnil":
-			cancel(nil)
+			o.doCancel(cancel, nil, "err:"+ErrCancelWithNil.Error())
 		case "panic":
 			vrt.Yield()
 			panic(fmt.Sprintf("map-panic-%d", i))
@@ -129,7 +147,11 @@ func (s scen) run(r *vrt.Run) {
 		case "panic":
 			panic("red-panic")
 		case "cancel":
-			cancel(errB)
+			o.doCancel(cancel, errB, "err:errB")
+			return
+		case "cancel2":
+			o.doCancel(cancel, errB, "err:errB")
+			o.doCancel(cancel, errA, "err:errA")
 			return
 		case "first1":
 			for v := range pipe {
@@ -317,6 +339,9 @@ func (s scen) check(r *vrt.Run, o *obs, outcome string) {
 		case "cerrB":
 			nCancel++
 			allowed["err:errB"] = true
+		case "cerrAB":
+			nCancel++
+			allowed["err:errA"] = true
 		case "cnil":
 			nCancel++
 			allowed["err:"+ErrCancelWithNil.Error()] = true
@@ -339,9 +364,28 @@ func (s scen) check(r *vrt.Run, o *obs, outcome string) {
 		case "panic":
 			nPanic++
 			allowed["panic:red-panic"] = true
-		case "cancel":
+		case "cancel", "cancel2":
 			nCancel++
 			allowed["err:errB"] = true
+		}
+	}
+	// first cancel wins: a cancel call that had returned before any other cancel call was
+	// made decides the error (if the outcome is a cancel error at all)
+	for _, x := range o.cancels {
+		first := true
+		for _, y := range o.cancels {
+			if y != x && y.inv < x.ret {
+				first = false
+			}
+		}
+		isCancelOutcome := false
+		for _, y := range o.cancels {
+			if y.what == outcome {
+				isCancelOutcome = true
+			}
+		}
+		if first && isCancelOutcome && outcome != x.what {
+			r.Failf("first cancel wins: the cancel standing for %s had returned (tick %d) before any other cancel was called, yet the call returned %s", x.what, x.ret, outcome)
 		}
 	}
 	ctxDist := 0
@@ -484,7 +528,7 @@ func scenarios() []scen {
 		}
 	}
 	// B. cancel
-	for _, mb := range [][]string{{"cerrA"}, {"cnil"}, {"w1", "cerrA"}, {"cerrA", "w1"}, {"cerrA", "cerrB"}, {"w1", "cnil", "w1"}, {"cerrA", "w2", "cerrB"}} {
+	for _, mb := range [][]string{{"cerrA"}, {"cnil"}, {"w1", "cerrA"}, {"cerrA", "w1"}, {"cerrA", "cerrB"}, {"w1", "cnil", "w1"}, {"cerrA", "w2", "cerrB"}, {"cerrAB"}, {"cerrAB", "w1"}, {"w1", "cerrAB", "cerrB"}} {
 		for _, w := range []int{1, 2} {
 			b := hi
 			if len(mb) >= 3 {
@@ -495,6 +539,8 @@ func scenarios() []scen {
 	}
 	add(scen{entry: "MapReduce", workers: 2, mb: []string{"w1", "w1"}, red: "cancel", bound: hi})
 	add(scen{entry: "MapReduce", workers: 1, mb: []string{"w1"}, red: "cancel", bound: hi})
+	add(scen{entry: "MapReduce", workers: 2, mb: []string{"w1", "w1"}, red: "cancel2", bound: hi})
+	add(scen{entry: "MapReduce", workers: 2, mb: []string{"w1", "cerrA"}, red: "cancel2", bound: lo})
 	add(scen{entry: "MapReduce", workers: 2, mb: []string{"cerrA", "w1"}, red: "first1", bound: hi})
 	add(scen{entry: "MapReduce", workers: 2, mb: []string{"w1", "cerrA", "w1"}, red: "first1", bound: lo})
 	add(scen{entry: "MapReduce", workers: 1, mb: []string{"w1", "cerrA", "w1"}, red: "first1", bound: lo})
